@@ -43,9 +43,12 @@ Requests(segs) == LET L == TotalLen(segs) IN Windows(L) \cup Slices(L) \cup Indi
 
 Layouts == {FALSE, TRUE}        \* il
 
-Init == /\ shape \in [segs : Shapes, il : Layouts] /\ req = NoReq
+\* req.kind = "init": shape chosen, nothing evaluated yet (keeps the single-threaded initial-state phase cheap;
+\* the per-shape work is done when the workers take the Start step)
+Init == /\ shape \in [segs : Shapes, il : Layouts] /\ req = [kind |-> "init"]
+Start == /\ req.kind = "init" /\ req' = NoReq /\ UNCHANGED shape
 Ask  == /\ req = NoReq /\ req' \in Requests(shape.segs) /\ UNCHANGED shape
-Next == Ask
+Next == Start \/ Ask
 Spec == Init /\ [][Next]_vars
 
 Abstract(segs, r) ==
@@ -61,7 +64,7 @@ Algorithm(sh, r) ==
 
 (* ------------------------------ properties ------------------------------ *)
 \* C04: the algorithm returns what the same index returns on the full array
-AlgorithmCorrect == req.kind # "none" => Algorithm(shape, req) = Abstract(shape.segs, req)
+AlgorithmCorrect == req.kind \notin {"none", "init"} => Algorithm(shape, req) = Abstract(shape.segs, req)
 
 \* C19 (specification level): the algorithm fetches only chunks that overlap the request
 FootprintBounded ==
